@@ -97,7 +97,7 @@ theorem doRefresh_noFault (cfg : Cfg) (hc : cfg.plain = true) (st : St) :
     constructor
     · intro h
       simp only [h, if_true]
-      have := hooked_noFault cfg { st with calls := c, renderable := tasksTable cfg.cw st.tasks } []
+      have := hooked_noFault cfg { st with calls := c, renderable := taskRows st.tasks } []
       exact ⟨this.err, this.out, this.shape, this.isSome, this.hooks, this.started, this.bufOut, this.bufErr⟩
     · intro h; simp [h]
   · simp only [doRefresh, hk, ha, if_true]
@@ -151,7 +151,7 @@ theorem doRefresh_bufs (cfg : Cfg) (fails : Nat → Bool) (st : St) :
       · exact ⟨rfl, rfl⟩
       · simp only [Bool.not_true, Bool.false_eq_true, if_false]
         split
-        · exact hooked_bufs cfg fails { st with calls := c, renderable := tasksTable cfg.cw st.tasks } []
+        · exact hooked_bufs cfg fails { st with calls := c, renderable := taskRows st.tasks } []
         · exact ⟨rfl, rfl⟩
   · exact other
 
